@@ -78,7 +78,7 @@ impl Out {
     pub fn direct(&mut self, ok: bool, what: &str, input: String, got: String, want: String) {
         self.direct_checks += 1;
         if !ok && self.failures.len() < 50 {
-            self.failures.push(serde_json::json!({"what": what, "input": input, "impl": got, "expected": want}));
+            self.failures.push(serde_json::json!({"what": what, "input": input, "impl": got, "expected": want, "last_op": self.ops.last().cloned().unwrap_or_default()}));
         }
     }
     pub fn write(&self, dir: &str) {
